@@ -69,6 +69,13 @@ fn skip_leading_newlines(nodes: &[Node]) -> &[Node] {
     &nodes[index..]
 }
 
+/// Whether the section of a gather (its content up to the next gather of the weave)
+/// has choices of the weave in it: the gather that follows choices is reached from
+/// their loose ends, the gather that follows none is entered by the flow itself.
+fn gather_section_has_choice(nodes: &[Node]) -> bool {
+    nodes.iter().any(|node| matches!(node, Node::Choice(_)))
+}
+
 fn nodes_contain_choice(nodes: &[Node]) -> bool {
     for node in nodes {
         match node {
@@ -371,6 +378,13 @@ fn emit_nodes_with_continuation(
 
                 let mut gather_index = index;
                 let mut is_first = true;
+                // A gather that follows a section without choices is entered by the
+                // flow itself: it is the last content of the gather before it (the
+                // reference compiler's "auto-enter"), and these are the gathers that
+                // are still open that way, outermost first. Only a gather that
+                // follows choices is named content of the weave, reached by diverts.
+                let mut open_gathers: Vec<(EmittedContainer, &String, Option<i32>)> = Vec::new();
+                let mut parent_scope = scope.clone();
 
                 loop {
                     let Node::GatherLabel {
@@ -395,7 +409,7 @@ fn emit_nodes_with_continuation(
                             )
                         })
                         .map_or(nodes.len(), |offset| body_start + offset);
-                    let next_gather_path = nodes.get(body_end).and_then(|node| {
+                    let next_gather_label = nodes.get(body_end).and_then(|node| {
                         let Node::GatherLabel {
                             label: next_label,
                             level: next_level,
@@ -405,60 +419,71 @@ fn emit_nodes_with_continuation(
                             return None;
                         };
                         (next_level == gather_level && next_indent == gather_indent)
-                            .then(|| format!("{}.{}", scope.path, next_label))
+                            .then_some(next_label)
+                    });
+                    let sub_scope = parent_scope.choice_branch(gather_label);
+                    let gather_body = &nodes[body_start..body_end];
+                    let next_is_entered = next_gather_label.is_some()
+                        && !gather_section_has_choice(gather_body);
+                    let next_gather_path = next_gather_label.map(|next_label| {
+                        if next_is_entered {
+                            format!("{}.{}", sub_scope.path, next_label)
+                        } else {
+                            format!("{}.{}", scope.path, next_label)
+                        }
                     });
                     let gather_fallback = next_gather_path
                         .as_deref()
                         .or(fallback_continuation);
-                    let sub_scope = scope.choice_branch(gather_label);
-                    let gather_body = &nodes[body_start..body_end];
                     let mut sub_container = emit_nodes_with_continuation(
                         gather_body,
                         &sub_scope,
                         context,
                         gather_fallback,
                     )?;
-                    if let Some(token) = loose_end_append_for_nodes(
-                        gather_body,
-                        nodes_contain_choice(gather_body),
-                        gather_fallback,
-                        None,
-                        false,
-                        LooseEndNoFallback::None,
-                    ) {
+                    // (the flow runs into a gather that is entered, it needs no divert)
+                    if !next_is_entered
+                        && let Some(token) = loose_end_append_for_nodes(
+                            gather_body,
+                            nodes_contain_choice(gather_body),
+                            gather_fallback,
+                            None,
+                            false,
+                            LooseEndNoFallback::None,
+                        )
+                    {
                         sub_container.push(token);
                     }
 
+                    let count_flags = gather_count_flags(&sub_scope.path, context);
+                    open_gathers.push((sub_container, gather_label, count_flags));
 
-                    let gather_path = format!("{}.{}", scope.path, gather_label);
-                    let count_flags = gather_count_flags(&gather_path, context);
-                    if is_first {
-                        out.push(
-                            sub_container
-                                .into_json_array(Some(gather_label), count_flags)?,
-                        );
+                    if next_is_entered {
+                        parent_scope = sub_scope;
                     } else {
-                        out.insert_named(
-                            gather_label.clone(),
-                            sub_container.into_json_array(None, count_flags)?,
-                        );
+                        // Close the open gathers, each the last content of the one before.
+                        let (mut container, mut label, mut flags) =
+                            open_gathers.pop().expect("a gather was just opened");
+                        while let Some((mut outer, outer_label, outer_flags)) = open_gathers.pop() {
+                            outer.push(container.into_json_array(Some(label), flags)?);
+                            (container, label, flags) = (outer, outer_label, outer_flags);
+                        }
+                        if is_first {
+                            out.push(container.into_json_array(Some(label), flags)?);
+                        } else {
+                            out.insert_named(
+                                label.clone(),
+                                container.into_json_array(None, flags)?,
+                            );
+                        }
+                        is_first = false;
+                        parent_scope = scope.clone();
                     }
 
-                    if body_end == nodes.len() {
-                        break;
-                    }
-                    if !matches!(
-                        &nodes[body_end],
-                        Node::GatherLabel {
-                            level,
-                            indent,
-                            ..
-                        } if level == gather_level && indent == gather_indent
-                    ) {
+                    if next_gather_label.is_none() {
                         break;
                     }
                     gather_index = body_end;
-                    is_first = false;
                 }
 
                 break;
